@@ -560,6 +560,52 @@ pub fn eval_many(c: &Many) -> Vec<Finding> {
 }
 
 // ------------------------------------------------------------------------------------------
+// a channel that abandons a message: after its initialisation packet and k continuation packets
+// the sender starts over with another message on the same channel.  The new message (and the one
+// after it) is delivered exactly as a fresh receiver would deliver it.
+pub fn eval_restart(k: usize, len1: usize, len2: usize) -> Vec<Finding> {
+    let case = json!({"restart": {"k": k, "len1": len1, "len2": len2}});
+    let ch = 0x0e0e_0003u32;
+    let r = par::catch(|| -> Result<Option<String>, String> {
+        let p1: Vec<u8> = (0..len1).map(|i| (i % 249) as u8).collect();
+        let p2: Vec<u8> = (0..len2).map(|i| (i % 247) as u8 ^ 0x55).collect();
+        let w1: Vec<Vec<u8>> = send(ch, Command::Cbor, &p1)?.ok_or("harness: refused")?.chunks(64).map(|p| p.to_vec()).collect();
+        let w2: Vec<Vec<u8>> = send(ch, Command::Msg, &p2)?.ok_or("harness: refused")?.chunks(64).map(|p| p.to_vec()).collect();
+        if w1.len() < k + 2 {
+            return Ok(None); // the first message would be complete: not an abandonment
+        }
+        let mut h = ChannelHandler::default();
+        for p in w1.iter().take(1 + k) {
+            if h.handle_packet(p).is_some() {
+                return Ok(Some("the abandoned message was delivered before its last packet".into()));
+            }
+        }
+        for round in 0..2 {
+            let mut got = None;
+            for (i, p) in w2.iter().enumerate() {
+                let r = h.handle_packet(p);
+                if r.is_some() && i + 1 < w2.len() {
+                    return Ok(Some(format!("round {round}: delivered early at packet {i}")));
+                }
+                got = r;
+            }
+            match got {
+                Some(m) if m.channel == ch && m.payload == p2 && m.command.encode() == 0x83 => {}
+                Some(m) => return Ok(Some(format!("round {round}: the message after the abandoned one arrives altered ({} bytes, command {:#04x})", m.payload.len(), m.command.encode()))),
+                None => return Ok(Some(format!("round {round}: after a message of {len1} bytes was abandoned following its initialisation packet and {k} continuation packet(s), the next message of {len2} bytes on the same channel is not delivered"))),
+            }
+        }
+        Ok(None)
+    });
+    match r {
+        Err(p) => vec![Finding::new(format!("restart/kind=panic/site={}", par::panic_site(&p)), p, case)],
+        Ok(Err(e)) => vec![Finding::new("restart/kind=harness", e, case)],
+        Ok(Ok(Some(d))) => vec![Finding::new("restart/kind=message-lost-or-altered", d, case)],
+        Ok(Ok(None)) => vec![],
+    }
+}
+
+// ------------------------------------------------------------------------------------------
 // a long-lived receiver: after any number of completed messages the handler reassembles the next
 // one like a fresh handler does (no budget, counter or table that fills up over its lifetime)
 pub fn eval_long_lived(messages: usize) -> Vec<Finding> {
@@ -917,6 +963,14 @@ pub fn run(ctx: &Ctx) -> Result<Run, String> {
         stats.count("long_lived_messages", n as u64);
         stats.findings_from(eval_long_lived(n));
     }
+    for k in 0..6usize {
+        for len1 in [117usize, 300, 1000, 7608] {
+            for len2 in [0usize, 57, 58, 117, 300, 7608] {
+                stats.case(&("restart", k, len1, len2), true, "restart-after-partial-message");
+                stats.findings_from(eval_restart(k, len1, len2));
+            }
+        }
+    }
     let cc = cross_cases();
     let cc_stats = par::sweep_cases(&cc, ctx.threads, |c, st| {
         st.case(c, true, "cross-command");
@@ -952,7 +1006,7 @@ pub fn run(ctx: &Ctx) -> Result<Run, String> {
     stats.samples.push(json!({"starve": sv[sv.len() / 2]}));
     let mut run = Run::from_stats(
         "model_checking",
-        "single channel: every payload length 0..7700 and 65535/65536/70000 (all 9 commands x 4 channel ids at the boundary lengths, rotating command/channel and 3 content patterns elsewhere): written into a Vec, into a writer that only implements write/flush (same bytes) and into a buffering adapter that hands each flush as one report to a report-oriented device (the receiver fed with 64 bytes of each report gets the message); written bytes parsed by the harness (64-byte packets, header layout, sequence numbers, zero padding, packet count) and fed to a fresh receiver, and the message the receiver delivers is sent again (must be written as the same packets); interleavings: stateright BFS whose state is the real ChannelHandler (cloned via the verif hook) plus the next-packet index per stream, over all combinations of 2, 3 and 4 concurrently transmitting channels with payload lengths from {0,57,58,116,117,175,234} (1..4 packets; thorough adds streams of 5 and 6 packets for 2 and 3 channels), channels sending two messages back to back, and one stray continuation packet for an idle channel at any point; deduplicated on (indices, hook snapshot); run twice with different thread counts; cross-checked by a hook-free enumeration of all complete interleavings for 2 and 3 channels; many channels: 1..300 (thorough 4096) channels each start a two-packet message (the first optionally twice) and then complete, in channel order and in reverse – every message is delivered; a long-lived receiver: 600 000 (thorough 6 000 000) completed messages of 1..3 packets on three channels through ONE handler, each delivered unaltered, and after 1, 2, 4, ... and all of them the maximal 7608-byte message is still reassembled; commands across channels: a complete message of each of the 9 commands with 14 short payloads (empty, single bytes 0/1/2/5/10/11/0x7f/0xff, pairs, 4, 8 and 17 bytes) on one channel before, inside or twice before a two-packet message of another channel (also the broadcast channel), followed by a further message of the first channel - every message is delivered, unaltered, by its own last packet; failing writers: a write call fails at any of the first eight / last two packets with five error kinds, once or from then on – success is never reported for a message the writer did not receive in full and in order; starvation: a 3-packet message held back after its first / second packet while other channels send every number of packets 0..300 (thorough 0..1100) and 1024, 2048, 4096, 10000 as whole messages in three traffic shapes (maximal messages, two channels alternating single packets, 2-packet messages), each of which must be delivered too",
+        "single channel: every payload length 0..7700 and 65535/65536/70000 (all 9 commands x 4 channel ids at the boundary lengths, rotating command/channel and 3 content patterns elsewhere): written into a Vec, into a writer that only implements write/flush (same bytes) and into a buffering adapter that hands each flush as one report to a report-oriented device (the receiver fed with 64 bytes of each report gets the message); written bytes parsed by the harness (64-byte packets, header layout, sequence numbers, zero padding, packet count) and fed to a fresh receiver, and the message the receiver delivers is sent again (must be written as the same packets); interleavings: stateright BFS whose state is the real ChannelHandler (cloned via the verif hook) plus the next-packet index per stream, over all combinations of 2, 3 and 4 concurrently transmitting channels with payload lengths from {0,57,58,116,117,175,234} (1..4 packets; thorough adds streams of 5 and 6 packets for 2 and 3 channels), channels sending two messages back to back, and one stray continuation packet for an idle channel at any point; deduplicated on (indices, hook snapshot); run twice with different thread counts; cross-checked by a hook-free enumeration of all complete interleavings for 2 and 3 channels; many channels: 1..300 (thorough 4096) channels each start a two-packet message (the first optionally twice) and then complete, in channel order and in reverse – every message is delivered; abandoned messages: a channel sends the initialisation packet and 0..5 continuation packets of a message of 117..7608 bytes and then starts over with another message of 0..7608 bytes, twice - each is delivered as by a fresh receiver; a long-lived receiver: 600 000 (thorough 6 000 000) completed messages of 1..3 packets on three channels through ONE handler, each delivered unaltered, and after 1, 2, 4, ... and all of them the maximal 7608-byte message is still reassembled; commands across channels: a complete message of each of the 9 commands with 14 short payloads (empty, single bytes 0/1/2/5/10/11/0x7f/0xff, pairs, 4, 8 and 17 bytes) on one channel before, inside or twice before a two-packet message of another channel (also the broadcast channel), followed by a further message of the first channel - every message is delivered, unaltered, by its own last packet; failing writers: a write call fails at any of the first eight / last two packets with five error kinds, once or from then on – success is never reported for a message the writer did not receive in full and in order; starvation: a 3-packet message held back after its first / second packet while other channels send every number of packets 0..300 (thorough 0..1100) and 1024, 2048, 4096, 10000 as whole messages in three traffic shapes (maximal messages, two channels alternating single packets, 2-packet messages), each of which must be delivered too",
         true,
         stats,
     );
@@ -967,6 +1021,9 @@ pub fn replay(_ctx: &Ctx, case: &Value) -> Result<Vec<Finding>, String> {
     if let Some(m) = case.get("many_channels") {
         let c: Many = serde_json::from_value(m.clone()).map_err(|e| format!("bad C16 case: {e}"))?;
         return Ok(eval_many(&c));
+    }
+    if let Some(m) = case.get("restart") {
+        return Ok(eval_restart(m["k"].as_u64().unwrap_or(0) as usize, m["len1"].as_u64().unwrap_or(0) as usize, m["len2"].as_u64().unwrap_or(0) as usize));
     }
     if let Some(m) = case.get("long_lived") {
         return Ok(eval_long_lived(m["messages"].as_u64().unwrap_or(0) as usize));
